@@ -68,9 +68,9 @@ func faultsForLeaf(k gpb.Kind) []fault {
 	case gpb.KUint64:
 		return append(wrongTypes("number,string"), fault{"unparsable", `"abc"`}, fault{"fraction", `1.5`}, fault{"negative", `-1`}, fault{"quoted-negative", `"-1"`}, fault{"above-max", `18446744073709551616`}, fault{"quoted-above-max", `"18446744073709551616"`}, fault{"empty-string", `""`})
 	case gpb.KFloat:
-		return append(wrongTypes("number,string"), fault{"unparsable", `"abc"`}, fault{"huge", `1e400`}, fault{"float32-overflow", `1e39`}, fault{"quoted-float32-overflow", `"1e39"`}, fault{"empty-string", `""`})
+		return append(wrongTypes("number,string"), fault{"unparsable", `"abc"`}, fault{"huge", `1e400`}, fault{"float32-overflow", `1e39`}, fault{"quoted-float32-overflow", `"1e39"`}, fault{"empty-string", `""`}, fault{"quoted-infinity", `"Infinity"`}, fault{"quoted-negative-inf", `"-inf"`}, fault{"quoted-nan", `"NaN"`})
 	case gpb.KDouble:
-		return append(wrongTypes("number,string"), fault{"unparsable", `"abc"`}, fault{"huge", `1e400`}, fault{"quoted-huge", `"1e400"`}, fault{"empty-string", `""`})
+		return append(wrongTypes("number,string"), fault{"unparsable", `"abc"`}, fault{"huge", `1e400`}, fault{"quoted-huge", `"1e400"`}, fault{"empty-string", `""`}, fault{"quoted-infinity", `"Infinity"`}, fault{"quoted-negative-inf", `"-inf"`}, fault{"quoted-nan", `"NaN"`})
 	case gpb.KBytes:
 		return append(wrongTypes("string"), fault{"invalid-base64-chars", `"!!!!"`}, fault{"invalid-base64-length", `"a"`}, fault{"invalid-base64-mixed", `"ab=c"`})
 	case gpb.KDate:
